@@ -1,10 +1,10 @@
 (* Property C06: normal-form transformations preserve the weighted language.
    Statements only.  Term-wise theorems (any commutative semiring, cyclic grammars included):
-   bottom-up trimming, renaming, start separation.  The remaining transformations
-   (binarize, separate_terminals, nullaryremove, unaryremove, unarycycleremove, cnf, unfold,
-   top-down trimming) are decided by the correspondence run only: their outputs are read back and
-   evaluated by the reference semantics, which C02_reference_is_tree_sum proves to be the
-   derivation sum. *)
+   bottom-up and top-down trimming, renaming, start separation; tree bijections for unfold,
+   separate_terminals and binarize; equation-level theorems for nullary and unary removal.
+   unarycycleremove and cnf as a whole are decided by the correspondence run only: their outputs
+   are read back and evaluated by the reference semantics, which C02_reference_is_tree_sum proves
+   to be the derivation sum. *)
 From Coq Require Import List Arith ZArith Permutation.
 From GV.lib Require Import Semiring BigSum.
 From GV.model Require Import Cfg Transform.
@@ -266,3 +266,41 @@ Proof.
     intros r Hr _. apply Hh; exact Hr.
 Qed.
 Print Assumptions C06_unaryremove_solutions.
+
+(* Top-down trimming (CFG.trim): the regenerated CFG._trim applied to ANY set of symbols that is closed under the
+   rules that can contribute (a kept head's rule has its whole body kept, or mentions a non-generating symbol)
+   preserves every derivation sum of every kept nonterminal at every height, over any commutative semiring; the
+   surviving rules are the kept ones in their original order.  The set the model of CFG.trim computes (reached from
+   the start symbol through rules with generating bodies; model/TopDown.v, compared rule list by rule list with the
+   implementation in C07's run) is such a set and is exactly that reachability relation; hence trimming preserves
+   the weight of every string from the start symbol, also when the start symbol is non-generating (empty result). *)
+From GV.model Require TopDown.
+From GV.proofs Require TopDownTrimProofs ReachProofs.
+Theorem C06_topdown_trim_preserves : forall (S : SR) (G : grammar S) (keep : sym -> bool),
+  TopDownTrimProofs.td_closed G keep ->
+  (forall h X xs, keep (N X) = true -> W (gen_trim S keep G) h X xs = W G h X xs) /\
+  gen_trim S keep G = filter (fun r => andb (keep (N (rhead r))) (forallb keep (rbody r))) G.
+Proof.
+  intros S G keep H. split.
+  - intros h X xs HX. exact (TopDownTrimProofs.topdown_trim_W S G keep H h X xs HX).
+  - exact (TopDownTrimProofs.topdown_trim_is_filter S G keep).
+Qed.
+Print Assumptions C06_topdown_trim_preserves.
+
+Theorem C06_trim_preserves : forall (S : SR) (G : grammar S) (s : nat),
+  (forall h xs, W (TopDown.trim_model s G) h s xs = W G h s xs) /\
+  (forall X h xs, In X (TopDown.reachable G s) -> W (TopDown.trim_model s G) h X xs = W G h X xs) /\
+  TopDownTrimProofs.td_closed G (TopDown.keep_nts (TopDown.reachable G s)) /\
+  (forall X, In X (TopDown.reachable G s) -> ReachProofs.reach_rel G s X) /\
+  (In s (generating G) -> forall X, ReachProofs.reach_rel G s X -> In X (TopDown.reachable G s)) /\
+  (forall X, In X (TopDown.reachable G s) -> In X (generating G)).
+Proof.
+  intros S G s.
+  split; [intros h xs; exact (ReachProofs.trim_model_W S G s h xs)|].
+  split; [intros X h xs HX; exact (ReachProofs.trim_model_W_reached S G s X h xs HX)|].
+  split; [exact (ReachProofs.reachable_td_closed S G s)|].
+  split; [intros X HX; exact (ReachProofs.reachable_sound S G s X HX)|].
+  split; [intros Hs X HX; exact (ReachProofs.reachable_complete S G s X Hs HX)|].
+  intros X HX; exact (ReachProofs.reachable_generating S G s X HX).
+Qed.
+Print Assumptions C06_trim_preserves.
